@@ -606,7 +606,7 @@ func ParseContractFile(path string, pkg string, assumed bool) (*ContractFile, er
 }
 
 var clauseKeywords = map[string]bool{
-	"requires": true, "ensures": true, "proves": true, "modifies": true, "nopanic": true, "loop": true, "on": true,
+	"requires": true, "ensures": true, "proves": true, "trusts": true, "modifies": true, "nopanic": true, "loop": true, "on": true,
 	"ghost": true, "inline": true, "opaque": true, "assume": true, "func": true, "pred": true,
 	"spec": true, "lemma": true, "axiom": true, "terminates": true, "pure": true, "alloc": true, "mergeexits": true, "thorough": true, "callee": true, "panics": true, "havoc": true, "trusted": true,
 }
@@ -762,7 +762,7 @@ func ParseContractText(text, path, pkg string, assumed bool) (*ContractFile, err
 			c := &Clause{Kind: word, Text: s, Line: ll.line}
 			rest, c.Tags = splitTags(rest, cur.Tags)
 			switch word {
-			case "requires", "ensures", "assume", "proves":
+			case "requires", "ensures", "assume", "proves", "trusts":
 				e, err := ParseExpr(rest)
 				if err != nil {
 					return nil, fail(err)
